@@ -4,8 +4,8 @@
 // (every clock id) so that libstdc++'s std::chrono clocks -- hence FIX8::Tickval(true),
 // Tickval::now(), sending_time's default constructor, Session::heartbeat_service,
 // Schedule::test, Timer -- read a clock that only the harness moves.  nanosleep and
-// clock_nanosleep are interposed as well: they sleep a short *real* time (100 us) whatever was
-// asked, so that Session::stop() (250 ms) and ~Session() (1 s) cost nothing and threads that
+// clock_nanosleep are interposed as well: they sleep the requested time in REAL time, capped at
+// 200 us, so that Session::stop() (250 ms) and ~Session() (1 s) cost nothing and threads that
 // poll with hypersleep do not spin.  Nothing in /repo is changed.
 //
 // The virtual time is a process-wide atomic; it does not advance by itself.
